@@ -1,4 +1,5 @@
 import Dnp3.Driver.Link
+import Dnp3.Driver.Transport
 open Dnp3 Dnp3.Driver
 
 partial def loop {σ : Type} (h : IO.FS.Stream) (out : IO.FS.Stream) (step : σ → String → σ × List String) (s : σ) : IO Unit := do
@@ -7,7 +8,7 @@ partial def loop {σ : Type} (h : IO.FS.Stream) (out : IO.FS.Stream) (step : σ 
   if line.startsWith "#" then
     out.putStr line
     return (← loop h out step s)
-  if line.startsWith "expect" then
+  if line.startsWith "@" then
     return (← loop h out step s)
   let (s', outs) := step s line
   for o in outs do out.putStrLn o
@@ -18,4 +19,5 @@ def main (args : List String) : IO UInt32 := do
   let stdout ← IO.getStdout
   match args with
   | ["link"] => loop stdin stdout linkStep (Reader.new .close .stream 2048); return 0
+  | ["transport"] => loop stdin stdout transportStep TState.init; return 0
   | _ => IO.eprintln "usage: dnp3model <engine>"; return 2
